@@ -1,6 +1,7 @@
 package obykeyset
 
 import (
+	"strings"
 	"time"
 
 	"github.com/relex/gotils/logger"
@@ -108,10 +109,14 @@ func (o *byKeySetOrchestrator) newPipeline(keys []string, onStopped func()) chan
 	inputChannel := make(chan []*base.LogRecord, defs.IntermediateBufferedChannelSize)
 	pipelineLogger := o.logger.WithField(defs.LabelName, workerID)
 	pipelineLogger.Infof("new pipeline tag=%s", outputTag)
+	metricKeyValues := make([]string, len(keys))
+	for i, key := range keys {
+		metricKeyValues[i] = strings.ToValidUTF8(key, "\uFFFD") // invalid label values would make metric gathering fail
+	}
 	pipelineMetricCreator := o.metricCreator.AddOrGetPrefix(
 		"process_",
 		append([]string{"orchestrator"}, o.metricKeyNames...),
-		append([]string{"byKeySet"}, keys...),
+		append([]string{"byKeySet"}, metricKeyValues...),
 	)
 	o.startPipeline(pipelineLogger, pipelineMetricCreator, inputChannel, workerID, outputTag, onStopped)
 	return inputChannel
